@@ -61,7 +61,7 @@ class WorldC06(World):
     STATE_CHANGING = ('mkmodel', 'write_gas', 'write_surf', 'write_EA', 'write_T_flow', 'write_tube_mole')
     STATE_RULE = 'per path: (absent | undefined | which file kind it holds), number of models, writes so far bucket'
     PROBES = ('gas-reaction-in-mechanism', 'adsorption-reaction', 'surface-reaction-with-ts', 'surface-reaction-without-ts',
-              'two-or-three-sites', 'stoich-2-or-3', 'text-path', 'file-path', 'crlf-newline', 'overwrite',
+              'two-or-three-sites', 'stoich-2-or-3', 'text-path', 'file-path', 'crlf-newline', 'cr-newline', 'overwrite',
               'write-after-failed-write', 'recovery-after-fault', 'alloc-failure-signalled', 'alloc-failure-over-existing-file', 'read-back-gas', 'read-back-surf', 'read-of-torn-file',
               'read-absent', 'fault-did-not-fire', 'clock-jump-before-write', 'same-model-written-twice',
               'dimensionless-activation', 'gibbs-activation', 'eight-conditions', 'custom-delimiters',
@@ -178,7 +178,7 @@ class WorldC06(World):
 
     def _gen_opts(self, rng, kind):
         sw = self.ctx.swarm
-        o = {'newline': rng.choice(['\n', '\n', '\r\n']), 'to_file': rng.random() < 0.75}
+        o = {'newline': rng.choice(['\n', '\n', '\n', '\r\n', '\r\n', '\r']), 'to_file': rng.random() < 0.75}
         if sw['custom_fmt'] and rng.random() < 0.5:
             o.update({'float_format': rng.choice([' .3E', ' .5E', '.2E', ' .4e', '.0E', ' .3G', ' .6G']), 'stoich_format': rng.choice(['.0f', '.1f']),
                       'column_delimiter': rng.choice(['  ', ' ', '    ']), 'species_delimiter': rng.choice(['+', ' + ']),
@@ -812,6 +812,8 @@ class WorldC06(World):
             ctx.probe('same-model-written-twice')
         if o['newline'] == '\r\n' and o['to_file']:
             ctx.probe('crlf-newline')
+        if o['newline'] == '\r' and o['to_file']:
+            ctx.probe('cr-newline')
         if not o['to_file']:
             ctx.probe('text-path')
             kit.write_text(call, judge, what)
